@@ -680,9 +680,9 @@ func c15Convert(v *verifRun, dir string, w int, text string, parse func([]byte) 
 // -------------------------------------------------------------- entry ----
 
 func TestVerifC15(t *testing.T) {
-	nRandom, nGb, nGff := 6000, 4000, 4000
+	nRandom, nGb, nGff := 15000, 10000, 10000
 	if verifThorough() {
-		nRandom, nGb, nGff = 300000, 200000, 200000
+		nRandom, nGb, nGff = 600000, 400000, 400000
 	}
 	dir, err := ioutil.TempDir("", "verif-c15-")
 	if err != nil {
